@@ -168,6 +168,36 @@ class Case:
                     w.observe()
                     self.record(name, e2e)
                     self.trace.append((step, "dwr"))
+                elif kind == "wd":
+                    # a watchdog request is a request like any other: its answer enters the window of its origin,
+                    # and a T-flagged repeat of an answered one is a duplicate
+                    _, o, e, t = step[:4]
+                    origin, e2e = ORIGINS[o], E2E[e]
+                    self.hbh += 1
+                    hbh = self.hbh
+                    dup = bool(t) and e2e in self.window.get(origin, [])
+                    if t and e2e in self.window.get(origin, []):
+                        self.judged_dups += 1
+                    from vf import refcodec as R
+                    sp.send(R.enc_msg(280, app=0, flags=0x80 | (0x10 if t else 0), hbh=hbh, e2e=e2e,
+                                      avps=M.origin(origin, self.REALM)))
+                    h.settle()
+                    ev = w.observe()["events"]
+                    sp.drain()
+                    ans = [f for f in sp.frames[seen:] if not f.is_request and (f.h.hbh, f.h.e2e) == (hbh, e2e)]
+                    ctx = {"step": si, "origin": origin, "e2e": e2e, "T": t, "window": dict(self.window)}
+                    self.trace.append((step, "dup" if dup else "fresh", [f.result_code for f in ans]))
+                    want = 5012 if dup else 2001
+                    if len(ans) != 1 or ans[0].h.code != 280 or ans[0].result_code != want:
+                        key = "duplicate.not_answered_5012" if dup else (
+                            "non_duplicate.rejected_without_T_flag" if not t else
+                            "non_duplicate.rejected_although_outside_window")
+                        if not dup and not (ans and ans[0].result_code == 5012):
+                            key = "watchdog_request.not_answered"
+                        self.witness(key, {**ctx, "watchdog": True, "answers": [repr(f) for f in ans]})
+                    if ans:
+                        self.record(origin, e2e)
+                    self.run.cov["watchdog_steps"] = self.run.cov.get("watchdog_steps", 0) + 1
         finally:
             w.teardown()
 
@@ -221,14 +251,15 @@ def run_shard(spec):
     alpha = request_alphabet()
     if spec["kind"] == "exhaustive":
         # reduced alphabet for the exhaustive part: one origin varies in the last position only
-        small = [a for a in alpha if a[1] == 0 and a[2] < 2] + [("req", 1, 0, 1, "now"), ("sub",), ("dwr",)]
+        small = [a for a in alpha if a[1] == 0 and a[2] < 2] + [("req", 1, 0, 1, "now"), ("sub",), ("dwr",),
+                                                                ("wd", 0, 0, 0), ("wd", 0, 0, 1), ("wd", 0, 1, 1)]
         i = 0
         for L in range(2, spec["length"] + 1):
             for seq in itertools.product(small, repeat=L):
                 i += 1
                 if i % spec["parts"] != spec["part"]:
                     continue
-                if L == spec["length"] and (i // spec["parts"]) % 3:
+                if L == spec["length"] and (i // spec["parts"]) % 6:
                     continue
                 for N in (1, 2):
                     run.one(N, seq)
@@ -240,12 +271,14 @@ def run_shard(spec):
             seq = []
             for _ in range(L):
                 r = rng.random()
-                if r < 0.75:
+                if r < 0.68:
                     s = list(rng.choice(alpha))
                     if rng.random() < 0.6:
                         s[3] = 1
                     seq.append(tuple(s) + (rng.randrange(nconn),))
-                elif r < 0.9:
+                elif r < 0.82:
+                    seq.append(("wd", rng.randrange(2), rng.randrange(3), int(rng.random() < 0.6), 0, rng.randrange(nconn)))
+                elif r < 0.92:
                     seq.append(("sub",))
                 else:
                     seq.append(("dwr", 0, 0, 0, 0, rng.randrange(nconn)))
